@@ -34,6 +34,8 @@ REQUIRED_THEOREMS = ["stage_follows_setup", "data_in_only_after_in_setup", "in_t
                      "closed_loop_refines_event_run_mps", "closed2_refines_event_run_mps",
                      "readInv_legal_mps", "legal_read_in_order_mps", "closed2_refines_legal_run_mps",
                      "closed2_data_only_after_in_setup_mps", "closed2_in_answered_only_in_data_or_status_in_mps",
+                     "stage_follows_setup_mps", "data_in_only_after_in_setup_mps", "out_data_answered_only_in_status_out_mps",
+                     "setup_always_restarts_mps", "other_endpoint_tokens_are_stutter_mps",
                      "muxN_spec", "stepX_state", "stepX_unclaimed", "stepX_extra_owner", "stepX_conflict",
                      "extra_handlers_invisible", "cycle_refines_event_streams_run_extra"]
 RULE_SYS = ("; next to it the two streamer models of the closed loops (Model/Usb2/ControlCycSys.lean: StreamGen.serStep wired to "
@@ -66,10 +68,12 @@ PARTIAL_STREAMS = (
     "USBDevice at 8 / 16 / 32); get_descriptor_data_stage_mps / cyc_get_descriptor_data_stage_mps: for max_packet_size in "
     "{8, 16, 32, 64} the data stage read by IN + ACK pairs is exactly C09's Desc.dataStage (mps-sized chunks of the first "
     "wLength bytes, zero-length packet iff the total is a multiple of mps and smaller than wLength, DATA1 / DATA0 alternating), "
-    "at event level and on the cycle-level bus; of the property theorems of Props/C07.lean the two data-stage / IN-token rules "
-    "are re-stated for coreM (data_in_only_after_in_setup_mps, in_token_answered_only_in_data_or_status_in_mps) and transferred "
-    "to the cycle-level closed loop for the four sizes, the others (and C08 / C10) are stated for the 64 model only (they do "
-    "not read start_position); in the refinement theorem the StreamSerializer "
+    "at event level and on the cycle-level bus; the property theorems of Props/C07.lean are re-stated for coreM / stepM "
+    "(Lemmas/C07MpsTransfer.lean: stage_follows_setup_mps, data_in_only_after_in_setup_mps, "
+    "in_token_answered_only_in_data_or_status_in_mps, out_data_answered_only_in_status_out_mps, setup_always_restarts_mps, "
+    "other_endpoint_tokens_are_stutter_mps, other_endpoint_transactions_are_stutter_mps) and the data-stage / IN-token rules "
+    "transferred to the cycle-level closed loop for the four sizes; the C08 / C10 theorems are stated for the 64 model only "
+    "(they do not read start_position); in the refinement theorem the StreamSerializer "
     "'transmitter' and the descriptor handler are INPUTS of the cycle-level model, constrained in the expansion of an "
     "event by their stream contract (silent unless started; after `start` silent for lat >= 1 cycles, then the answer byte by "
     "byte, each held until tx.ready, `first`/`last` flags, ZLP = valid & last & ~first, missing descriptor = one stall "
